@@ -143,6 +143,8 @@ abbrev EF (a b : List RField) : Prop := a.map eraseField = b.map eraseField
 abbrev EPv (a b : List RVariant × List Item) : Prop := a.1 = b.1 ∧ EI a.2 b.2
 abbrev ET (a b : List RField × List Item × List Item) : Prop := EF a.1 b.1 ∧ EI a.2.1 b.2.1 ∧ EI a.2.2 b.2.2
 abbrev EPf (a b : List RField × List Item) : Prop := EF a.1 b.1 ∧ EI a.2 b.2
+/-- as `ET`, with the aliased fragments (third component) equal: `aliasMember` reads their names -/
+abbrev ET' (a b : List RField × List Item × List Item) : Prop := EF a.1 b.1 ∧ EI a.2.1 b.2.1 ∧ a.2.2 = b.2.2
 
 theorem getEnum_mem {s : Schema} {i : Nat} {en : StoredEnum} (h : s.getEnum i = .ok en) : en.name ∈ s.enums.map (·.name) := by
   unfold Schema.getEnum at h
@@ -164,12 +166,13 @@ theorem optToList_erase {a b : Option RField} (h : a.map eraseField = b.map eras
     a.toList.map eraseField = b.toList.map eraseField := by
   cases a <;> cases b <;> simp_all
 
-theorem calc_erase {c c' : Ctx} (H : CalcNorm c c') (hid : IdStable c c') : ∀ fuel,
+theorem calc_erase_strong {c c' : Ctx} (H : CalcNorm c c') (hid : IdStable c c') : ∀ fuel,
     (∀ name pfx t sels, ORel EI (calcSelection c fuel name pfx t sels) (calcSelection c' fuel name pfx t sels)) ∧
     (∀ name pfx vsels vts, ORel EPv (calcVariants c fuel name pfx vsels vts) (calcVariants c' fuel name pfx vsels vts)) ∧
-    (∀ sname pfx vt vsels, ORel ET (calcVariantSels c fuel sname pfx vt vsels) (calcVariantSels c' fuel sname pfx vt vsels)) ∧
+    (∀ sname pfx vt vsels, ORel ET' (calcVariantSels c fuel sname pfx vt vsels) (calcVariantSels c' fuel sname pfx vt vsels)) ∧
     (∀ pfx t sels, ORel EPf (calcFields c fuel pfx t sels) (calcFields c' fuel pfx t sels)) := by
   have hrf := renderField_congr H.skipNone H.deprecation
+  have ham := aliasMember_congr hrf H.cs
   intro fuel
   induction fuel with
   | zero =>
@@ -205,7 +208,7 @@ theorem calc_erase {c c' : Ctx} (H : CalcNorm c c') (hid : IdStable c c') : ∀ 
       | nil => unfold calcVariants; exact ORel.pure ⟨rfl, rfl⟩
       | cons vt rest =>
         unfold calcVariants
-        simp only [H.s, H.q]
+        simp only [H.s, H.q, ham]
         apply ORel.bind_same; intro vname
         have hrest : ∀ (v : RVariant) (i i' : List Item), i.map eraseItem = i'.map eraseItem →
             ORel EPv
@@ -229,17 +232,27 @@ theorem calc_erase {c c' : Ctx} (H : CalcNorm c c') (hid : IdStable c c') : ∀ 
             obtain ⟨r1', r2', r3'⟩ := r'
             obtain ⟨h1, h2, h3⟩ := hr
             simp only at h1 h2 h3
-            cases r3 with
+            subst h3
+            have hmem : ∀ extra : List (List RField),
+                (r1 ++ extra.flatten).map eraseField = (r1' ++ extra.flatten).map eraseField := fun extra => by
+              rw [List.map_append, List.map_append, h1]
+            cases r1 with
             | nil =>
-              cases r3' with
-              | nil => exact hrest _ _ _ (by simp only [List.map_append, renderType_erase c c' _ h1, h2])
-              | cons y ys => simp [EI] at h3
+              cases r1' with
+              | nil =>
+                simp only []
+                split
+                · exact hrest _ _ _ (by simp only [List.map_cons, h2])
+                · apply ORel.bind_same; intro extra
+                  exact hrest _ _ _ (by simp only [List.map_append, renderType_erase c c' _ (hmem extra), h2])
+              | cons y ys => simp [EF] at h1
             | cons x xs =>
-              cases r3' with
-              | nil => simp [EI] at h3
+              cases r1' with
+              | nil => simp [EF] at h1
               | cons y ys =>
-                simp only [EI, List.map_cons, List.cons.injEq] at h3
-                exact hrest _ _ _ (by simp only [List.map_cons, h3.1, h2])
+                simp only []
+                apply ORel.bind_same; intro extra
+                exact hrest _ _ _ (by simp only [List.map_append, renderType_erase c c' _ (hmem extra), h2])
     · intro sname pfx vt vsels
       cases vsels with
       | nil => unfold calcVariantSels; exact ORel.pure ⟨rfl, rfl, rfl⟩
@@ -254,12 +267,12 @@ theorem calc_erase {c c' : Ctx} (H : CalcNorm c c') (hid : IdStable c c') : ∀ 
             simp only [pure_bind]
             apply ORel.bind (ihVS sname pfx vt rest); intro a b hab
             exact ORel.pure ⟨by simp only [EF, List.map_append, hab.1], by simp only [EI, List.map_append, hab.2.1],
-              by simp only [EI, List.map_append, hab.2.2]⟩
+              by rw [hab.2.2]⟩
           · apply ORel.bind (ihF _ vt sub); intro x y hxy
             simp only [pure_bind]
             apply ORel.bind (ihVS sname pfx vt rest); intro a b hab
             exact ORel.pure ⟨by simp only [EF, List.map_append, hab.1, hxy.1],
-              by simp only [EI, List.map_append, hab.2.1, hxy.2], by simp only [EI, List.map_append, hab.2.2]⟩
+              by simp only [EI, List.map_append, hab.2.1, hxy.2], by rw [hab.2.2]⟩
         | spread fid fr =>
           unfold calcVariantSels
           simp only [H.q, H.cs, hrf]
@@ -319,6 +332,16 @@ theorem calc_erase {c c' : Ctx} (H : CalcNorm c c') (hid : IdStable c c') : ∀ 
         | typename =>
           unfold calcFields
           exact ihF pfx t rest
+
+theorem calc_erase {c c' : Ctx} (H : CalcNorm c c') (hid : IdStable c c') : ∀ fuel,
+    (∀ name pfx t sels, ORel EI (calcSelection c fuel name pfx t sels) (calcSelection c' fuel name pfx t sels)) ∧
+    (∀ name pfx vsels vts, ORel EPv (calcVariants c fuel name pfx vsels vts) (calcVariants c' fuel name pfx vsels vts)) ∧
+    (∀ sname pfx vt vsels, ORel ET (calcVariantSels c fuel sname pfx vt vsels) (calcVariantSels c' fuel sname pfx vt vsels)) ∧
+    (∀ pfx t sels, ORel EPf (calcFields c fuel pfx t sels) (calcFields c' fuel pfx t sels)) := by
+  intro fuel
+  obtain ⟨h1, h2, h3, h4⟩ := calc_erase_strong H hid fuel
+  exact ⟨h1, h2, fun sname pfx vt vsels =>
+    (h3 sname pfx vt vsels).mono (fun a b hab => ⟨hab.1, hab.2.1, by rw [EI, hab.2.2]⟩), h4⟩
 
 /-! ## the module level -/
 
@@ -560,9 +583,12 @@ theorem calc_noEnum (c : Ctx) : ∀ fuel,
             obtain ⟨r1, r2, r3⟩ := r
             obtain ⟨h2, h3⟩ := hr
             simp only at h2 h3
-            cases r3 with
-            | nil => exact hrest _ _ ((renderType_noEnum c _ _ _).append h2)
-            | cons x xs => exact hrest _ _ (NoEnum.cons (h3 x (by simp)) h2)
+            simp only []
+            split
+            · rename_i a
+              exact hrest _ _ (NoEnum.cons (h3 a (by simp)) h2)
+            · apply OAll.bind_any; intro extra
+              exact hrest _ _ ((renderType_noEnum c _ _ _).append h2)
     · intro sname pfx vt vsels
       cases vsels with
       | nil => unfold calcVariantSels; exact OAll.pure ⟨NoEnum.nil, NoEnum.nil⟩
